@@ -24,6 +24,49 @@ FULL_ENV = dict(real.DEFAULT_ENVDESC)
 FULL_ENV["fns"] = FULL_FNS
 
 
+def differently_configured_alongside(res):
+    """Whatever configuration knobs the environment class offers (its public class attributes holding a bool, a small
+    integer or None — found by introspection, so knobs added later are included), an environment of a SUBCLASS that sets
+    a knob the other way is a different environment: it is created and USED here (valid, invalid and borderline texts,
+    a few evaluations), before the stock environment is judged.  Nothing it does may change what the stock environment,
+    the module-level functions or fresh stock environments accept — the judging is what the rest of the check does."""
+    import jsonpath_rfc9535 as jp
+
+    texts = ["$", "$.a", "$[?@.a == true]", "$[?@.a == TRUE]", "$[?@.a == True]", "$[?@.a == NULL]", "$[?@.a == None]", "$[?@.a == nil]", "$[?@.a==01]", "$[01]", "$.a-b", "$ ", " $",
+             "$[?count(@.*) > 1]", "$[?length(@.a) == 1 && !match(@.b, 'x')]", "$[?nope(@)]", "$[?@.a == 'x']", "$['\\x']", "$[?(@.a)==1]", "$[1:2:3]", "$[9007199254740992]", "$..*",
+             "$[?@[?@.a > 1.5e2]]", "$[?!!@.a]", "$[?@.a = 1]", "$[?@.a === 1]", "$.a[", "$[?value(@.a) == null]", "$[?search(@.a, '[a-z]+')]", "$.é", "$['a',]"]
+    docs = [{"a": [1, {"a": True, "b": "x"}], "b": None}, [1, "a", None, [2]], "s"]
+    knobs = []
+    for name, val in vars(jp.JSONPathEnvironment).items():
+        if name.startswith("_") or callable(val) or isinstance(val, (property, classmethod, staticmethod)):
+            continue
+        if isinstance(val, bool):
+            knobs.append((name, not val))
+        elif val is None:
+            knobs += [(name, True), (name, 1)]
+        elif isinstance(val, int) and name not in ("min_int_index", "max_int_index"):
+            knobs += [(name, 0), (name, 1), (name, 3)]
+    for name, new in knobs:
+        try:
+            cls = type("Alongside_" + name, (jp.JSONPathEnvironment,), {name: new})
+            env = cls()
+        except Exception:  # noqa: BLE001
+            continue
+        for t in texts:
+            try:
+                c = env.compile(t)
+            except Exception:  # noqa: BLE001
+                continue
+            for d in docs:
+                try:
+                    c.find(d)
+                except Exception:  # noqa: BLE001
+                    pass
+        res.evaluations += 1
+    res.count("differently-configured-environments-used-first", len(knobs))
+    res.notes.append("knobs flipped on subclass environments before judging the stock environment: " + ", ".join(f"{n}={v!r}" for n, v in knobs))
+
+
 def compile_cases(res, envdesc, queries, prop, want="any"):
     """Each query through: real compile, model compile (Tie B), RFC judge (oracle).
     want: 'valid' (C03 stream), 'invalid' (C04 stream) or 'any'."""
@@ -97,6 +140,7 @@ def explore_c03(rng, tier, res, deep=False):
         "Spec.Grammar+Spec.Valid; real compile() must accept and build the derivation's AST. Non-trivial = "
         "distinct valid query."
     )
+    differently_configured_alongside(res)
     n = sizes(tier, deep, 2500, 60000)
     fns3 = [(a, b, c) for a, b, c, _ in FULL_FNS]
     qs = []
@@ -231,6 +275,7 @@ def explore_c04(rng, tier, res, deep=False):
         "JSONPathError. Thorough: every single-edit neighbour of the corpus and all token sequences up to length 4. "
         "Non-trivial = distinct string judged invalid."
     )
+    differently_configured_alongside(res)
     fns3 = [(a, b, c) for a, b, c, _ in FULL_FNS]
     g = gen.QueryGen(rng, names=gen.NAMES, fns=fns3, blanks=0.15)
     qs = set()
@@ -551,6 +596,7 @@ def explore_c13(rng, tier, res, deep=False):
     termination.stage(rng, tier, res)  # first: a scanner that does not terminate would hang everything below
     if any("did not return" in v.get("what", "") for v in res.violations):
         return
+    differently_configured_alongside(res)
     n = sizes(tier, deep, 2500, 50000)
     qs = {garbage(rng) for _ in range(n)}
     # the longest strings of the quantifier (1024 characters) built from the shortest operands: flat chains of one
@@ -1432,6 +1478,21 @@ def explore_c08(rng, tier, res, deep=False):
             canon_lines.append("canon\t" + wire.enc_str(nm))
             canon_names.append(nm)
     identity_under_reuse(rng, tier, res)
+    # a ROOT value that is a string whose text looks like JSON: it is the string (one node, no children), and the node's
+    # value is the very object that was passed in
+    for js in ["12", "null", "[1, 2]", '{"a": [true]}', '"x"', "true", "[]", "{}", " [1]", "1e3"]:
+        for envx in (env_det, env_nd):
+            for q in ("$", "$[*]", "$..*", "$[0]", "$.a", "$[?@]", "$..[0]"):
+                res.evaluations += 1
+                try:
+                    nodes = envx.find(q, js)
+                except jp.JSONPathError:
+                    continue
+                want_n = 1 if q == "$" else 0
+                if len(nodes) != want_n or (want_n and (nodes[0].value is not js or nodes[0].location != ())):
+                    res.violations.append({"property": "C08", "query": q, "document": js, "observed": [(list(n.location), n.value) for n in nodes][:5],
+                                           "expected": "[([], the string itself)]" if want_n else "[]",
+                                           "what": "a root value that is a JSON-looking STRING: the nodes are not nodes of the value that was passed in"})
     if tier == "thorough":
         for cp in list(range(0, 0xD800, 1)) + list(range(0xE000, 0x110000, 1)):
             if cp > 0x3000 and cp % 97:
